@@ -22,7 +22,7 @@
 (*                and what the command does after a failed call (reports   *)
 (*                it and stops; only a failing close may be ignored).      *)
 (***************************************************************************)
-EXTENDS Naturals, Sequences, FiniteSets, TLC, Json
+EXTENDS Integers, Sequences, FiniteSets, TLC, Json
 
 CONSTANTS
   Inputs,     \* <<[name, fmt, L, olen, opfx, steps, end]>>, one record per (input file, environment) (extracted):
@@ -39,6 +39,9 @@ CONSTANTS
               \*         res = "ok" / "err": a call may already fail in the undisturbed run (EACCES on the
               \*         temporary file in a read-only directory) - then it has no effect
               \*   end   how that run ended: "ok" / "fail" / "panic"
+              \*   left  HISTORY: >= 0 when an earlier run of the command on this path (on a longer file) was killed
+              \*         and left a temporary file of that many bytes in the directory; -1 otherwise.  What a
+              \*         killed run leaves behind is state that persists between runs: it is the object "left".
   ShortModes, \* subset of {"one", "half", "allbutone"}: lengths of short writes explored
   MaxFaults   \* injected failing calls per run (kill excluded)
 
@@ -54,10 +57,15 @@ Orig     == [b |-> "orig", n |-> 0]
 None     == [b |-> "none", n |-> 0]
 New(k)   == [b |-> "new", n |-> k]
 Mixed(k) == [b |-> "mixed", n |-> k]
+Left(k)  == [b |-> "left", n |-> k]      \* k bytes written by an earlier, killed run (text of another version of the file)
+Other    == [b |-> "other", n |-> 0]
 
-Get(fs, obj) == IF obj = "target" THEN fs.tgt ELSE IF obj = "tmp" THEN fs.tmp ELSE None
+\* objects: the file, a temporary file of this run, a file left behind by an earlier run, the directory ("dir":
+\* calls on it - open, fsync - have no effect on contents but can fail like any other)
+Get(fs, obj) == IF obj = "target" THEN fs.tgt ELSE IF obj = "tmp" THEN fs.tmp ELSE IF obj = "left" THEN fs.left ELSE None
 Put(fs, obj, c) == IF obj = "target" THEN [fs EXCEPT !.tgt = c]
-                   ELSE IF obj = "tmp" THEN [fs EXCEPT !.tmp = c] ELSE fs
+                   ELSE IF obj = "tmp" THEN [fs EXCEPT !.tmp = c]
+                   ELSE IF obj = "left" THEN [fs EXCEPT !.left = c] ELSE fs
 
 (* mechanism: effect of a system call that succeeded and transferred k bytes *)
 Apply(fs, s, k) ==
@@ -69,6 +77,8 @@ Apply(fs, s, k) ==
                               ELSE IF c.b = "new"   THEN Put(fs, s.obj, New(c.n + k))
                               ELSE IF c.b = "orig"  THEN Put(fs, s.obj, Mixed(k))
                               ELSE IF c.b = "mixed" THEN Put(fs, s.obj, Mixed(c.n + k))
+                              \* written from the start over what the killed run left: its tail survives unless overwritten
+                              ELSE IF c.b = "left" THEN Put(fs, s.obj, IF k >= c.n THEN New(k) ELSE Other)
                               ELSE fs
     [] s.op = "rename"     -> IF c.b = "none" THEN fs ELSE Put(Put(fs, s.to, c), s.obj, None)
     [] s.op = "link"       -> IF c.b = "none" THEN fs ELSE Put(fs, s.to, c)
@@ -108,7 +118,7 @@ Steps == In.steps
 
 Init ==
   /\ inp \in 1..Len(Inputs) /\ pc = 1 /\ exit = "running" /\ sched = <<>>
-  /\ fs = [tgt |-> Orig, tmp |-> None]
+  /\ fs = [tgt |-> Orig, tmp |-> None, left |-> IF Inputs[inp].left >= 0 THEN Left(Inputs[inp].left) ELSE None]
 
 ShortLens(n) ==
   ({1 : m \in ShortModes \cap {"one"}} \cup {n \div 2 : m \in ShortModes \cap {"half"}}
@@ -158,7 +168,7 @@ Spec == Init /\ [][Next]_vars
 
 TypeOK ==
   /\ exit \in {"running", "ok", "fail", "panic", "killed"}
-  /\ fs.tgt.b \in {"orig", "new", "mixed", "none"} /\ fs.tmp.b \in {"orig", "new", "mixed", "none"}
+  /\ fs.tgt.b \in {"orig", "new", "mixed", "none", "left", "other"} /\ fs.tmp.b \in {"orig", "new", "mixed", "none", "left", "other"}
   /\ \A i \in 1..Len(Inputs) : \A j \in 1..Len(Inputs[i].steps) : Inputs[i].steps[j].op \in Ops
 
 (* mechanism |= requirement: checked by FmtWriteReq.cfg.  NeverDamaged is  *)
